@@ -11,9 +11,9 @@ from vlib.core import Ctx, sha, pmap
 
 OPTS = ["-q", "--enable=style,unusedFunction", "--error-exitcode=7"]
 ARGS = {
-    "null": "int *p = 0; %s(p);",
-    "uninit": "int x; %s(&x);",
-    "array": "int a[3]; a[0] = 0; %s(a);",
+    "null": ("int *p = 0;", "p"),
+    "uninit": ("int x;", "&x"),
+    "array": ("int a[3]; a[0] = 0;", "a"),
 }
 SINKS = {
     "write": "void sink(int *p) { *p = 1; }",
@@ -21,8 +21,12 @@ SINKS = {
     "index": "void sink(int *p) { p[5] = 0; }",
 }
 PASS = {
-    "direct": "void %s(int *p) { %s(p); }",
-    "cond": "int gflag; void %s(int *p) { if (gflag) { %s(p); } }",
+    "direct": "void %s(int *p) { %s; }",
+    "cond": "int gflag; void %s(int *p) { if (gflag) { %s; } }",
+    # the pass-through function receives the pointer as its SECOND parameter and forwards it as the callee's argument
+    "shift": "void %s(int u, int *p) { (void)u; %s; }",
+    # two pointer parameters, only the second is forwarded (the first is a valid object at every call site)
+    "second": "int gobj; void %s(int *o, int *p) { (void)o; %s; }",
 }
 
 
@@ -53,11 +57,26 @@ def render(pr):
     L, pl = pr["L"], pr["placement"]
     names = ["top"] + ["f%d" % i for i in range(1, L)] + ["sink"]
     ext = pr["lang"]
-    proto = "".join("void %s(int *p);\n" % n for n in names[1:])
+    passf = pr["pass"]
+    nparam = {n: 1 for n in names}
+    for n in names[1:-1]:
+        nparam[n] = 2 if passf in ("shift", "second") else 1
+
+    def call(n, arg):
+        if nparam[n] == 1:
+            return "%s(%s)" % (n, arg)
+        return "%s(%s, %s)" % (n, "1" if passf == "shift" else "&gobj", arg)
+
+    def sig(n):
+        if nparam[n] == 1:
+            return "void %s(int *p);\n" % n
+        return ("void %s(int u, int *p);\n" if passf == "shift" else "extern int gobj;\nvoid %s(int *o, int *p);\n") % n
+    proto = "".join(sig(n) for n in names[1:])
     bodies = []
-    bodies.append("void top(void) { %s }" % (ARGS[pr["arg"]] % names[1]))
+    decl, argexpr = ARGS[pr["arg"]]
+    bodies.append("void top(void) { %s %s; }" % (decl, call(names[1], argexpr)))
     for i in range(1, L):
-        bodies.append(PASS[pr["pass"]] % (names[i], names[i + 1]))
+        bodies.append(PASS[passf] % (names[i], call(names[i + 1], "p")))
     bodies.append(SINKS[pr["sink"]])
     nfiles = max(pl) + 1
     files = {"proto.h": proto}
